@@ -18,6 +18,8 @@ package main
 // plain, and with Snapshot+restart before / after the marked entries (fold-all and fold-nothing horizons)
 // — against the replay of the log WITHOUT the marked entries, modulo the marker fields
 // (LastActivity/LastNonPing/LastClientMessageId of the affected sessions); LastPostMessage compared separately.
+// JSON cases additionally go through the JSON -> protobuf conversion of the raft log (the 1.0 upgrade path):
+// every entry must decode to the same message afterwards and the replay of the converted log is judged like the others.
 
 import (
 	"bufio"
@@ -324,6 +326,11 @@ func vmRunCase(line string, base string, n int) (result string) {
 		if len(now) != len(idxs) {
 			anomalies += " !count"
 		}
+		if strings.Contains(anomalies, "!lost") {
+			// an entry of the durable log can no longer be read back: raft could not replay its log
+			out = append(out, "exit@? "+string(kinds)+anomalies)
+			return strings.Join(out, " | ")
+		}
 		prev = now
 		if cerr == nil {
 			if _, err := os.Stat(filepath.Join(dir, "child.done")); err != nil {
@@ -419,8 +426,8 @@ func vmRunCase(line string, base string, n int) (result string) {
 		}
 	}
 	var mon []string
-	for vi, v := range variants {
-		got, err := vmFsmReplay(filepath.Join(dir, fmt.Sprintf("v%d", vi)), useProto, durable, v.snapAfter, v.t, sessions)
+	judge := func(vi int, v variantT, proto bool, durable []*vfEntry) {
+		got, err := vmFsmReplay(filepath.Join(dir, fmt.Sprintf("v%d", vi)), proto, durable, v.snapAfter, v.t, sessions)
 		verdict := "ok"
 		switch {
 		case err != nil:
@@ -451,6 +458,57 @@ func vmRunCase(line string, base string, n int) (result string) {
 			}
 		}
 		mon = append(mon, v.name+"="+verdict)
+	}
+	for vi, v := range variants {
+		judge(vi, v, useProto, durable)
+	}
+	if !useProto {
+		// the JSON -> protobuf transition (restart with -pre1.0_protobuf=true): opening the store converts it
+		// (LevelDBStore.ConvertToProto).  Every entry must still decode to the same robust.Message - the marked
+		// ones included - and the replay of the converted log must still equal the replay without them.
+		verdict := "ok"
+		if cs, err := raftstore.NewLevelDBStore(filepath.Join(dir, "raftlog"), false, true); err != nil {
+			verdict = "open-error"
+		} else {
+			cs.Close()
+			conv, _, err := vmReadStore(dir, true)
+			if err != nil {
+				verdict = "read-error"
+			} else {
+				var upgraded []*vfEntry
+				for _, e := range durable {
+					c, ok := conv[e.idx]
+					if !ok {
+						verdict = "LOST" + strconv.FormatUint(e.idx, 10)
+						break
+					}
+					if e.log.Type != c.Type || e.log.Term != c.Term {
+						verdict = "CONV-DIFF" + strconv.FormatUint(e.idx, 10)
+						break
+					}
+					if e.kind != 'i' {
+						a := robust.NewMessageFromBytes(e.log.Data, e.idx)
+						b := robust.NewMessageFromBytes(c.Data, e.idx)
+						if a.Id != b.Id || a.Session != b.Session || a.Type != b.Type || a.Data != b.Data || a.UnixNano != b.UnixNano ||
+							a.ClientMessageId != b.ClientMessageId || a.Revision != b.Revision || a.RemoteAddr != b.RemoteAddr ||
+							a.Currentmaster != b.Currentmaster || len(a.Servers) != len(b.Servers) {
+							verdict = "CONV-DIFF" + strconv.FormatUint(e.idx, 10)
+							break
+						}
+					}
+					ne := *e
+					ne.log = c
+					upgraded = append(upgraded, &ne)
+				}
+				if verdict == "ok" {
+					judge(len(variants), variantT{"upgraded-plain", -1, 0}, true, upgraded)
+					if lastMarked >= 0 {
+						judge(len(variants)+1, variantT{"upgraded-snapa-none", lastMarked + 1, foldNone}, true, upgraded)
+					}
+				}
+			}
+		}
+		mon = append(mon, "conv="+verdict)
 	}
 	out = append(out, "mon "+strings.Join(mon, " "))
 	return strings.Join(out, " | ")
